@@ -148,18 +148,18 @@ type call struct {
 }
 
 type env struct {
-	p     Plan
-	res   *l2.Result
-	w     *l2.World
-	tip   *chaingen.Node // honest best tip (moves on extension / reorg)
-	ext   []*chaingen.Node // pre-generated extension of the trunk
+	p   Plan
+	res *l2.Result
+	w   *l2.World
+	tip *chaingen.Node   // honest best tip (moves on extension / reorg)
+	ext []*chaingen.Node // pre-generated extension of the trunk
 	// pre-generated heavier branch forking branchDepth below the trunk tip
 	branch      []*chaingen.Node
 	branchDepth int32
-	peers []*simPeer
-	hook  *pointHook
-	trig  *trigger
-	src   *neutrino.RescanChainSource
+	peers       []*simPeer
+	hook        *pointHook
+	trig        *trigger
+	src         *neutrino.RescanChainSource
 
 	mu    sync.Mutex
 	calls []*call
@@ -445,7 +445,9 @@ func checkBlock(b *btcutil.Block, err error, want chainhash.Hash) string {
 	if b == nil {
 		return "GetBlock returned a nil block and a nil error"
 	}
-	if *b.Hash() != want {
+	// Not b.Hash(): it caches lazily inside the block, and GetBlock hands the
+	// same *btcutil.Block out of its cache to every caller.
+	if b.MsgBlock().BlockHash() != want {
 		return "GetBlock returned a different block than requested"
 	}
 	return ""
